@@ -34,6 +34,8 @@ contract(
     hints={"before:self.allocate_lr(lr)": [
         "0 <= index < len(self.lrs) and lr is self.lrs[index]",
         "all(lr.neighbours[k] is not lr for k in range(len(lr.neighbours)))",
+        # every neighbour is one of the allocator's ranges, hence well-formed (allocated consistently or not allocated)
+        "all(allocated_ok(lr.neighbours[k]) and lr.neighbours[k].size >= 0 for k in range(len(lr.neighbours)))",
     ]},
     loops={
         0: dict(invariants=["all(self.lrs[i].address == NOT_ALLOCATED for i in range(_it0))"], modifies_fields=["address"]),
